@@ -1,11 +1,16 @@
 // gen_gates: translator for C07.  Reads the working tree (go/ast) and writes coq/Gen/Gates.v:
-//   msg_gates        every CheckIfAllowedPermission call inside a msg-server method of
-//                    x/*/keeper/msg_server.go:  "module.Method:actor:RequestedPermission:guard"
-//                    (guard = the result is tested by an if whose body returns)
-//   wrapper_mismatch call sites that go through a module keeper wrapper which does NOT pass the
-//                    requested permission on to gov's CheckIfAllowedPermission
-//   proposal_perms   "module.Type:ProposalPermission:VotePermission" of every Content type
-//   gen_errors       call sites / methods outside the translated fragment
+//
+//	msg_gates        every CheckIfAllowedPermission call inside a msg-server method of
+//	                 x/*/keeper/msg_server.go:  "module.Method:actor:RequestedPermission:guard"
+//	                 (guard = the result is tested by an if whose body returns)
+//	wrapper_mismatch call sites that go through a module keeper wrapper which does NOT pass the
+//	                 requested permission on to gov's CheckIfAllowedPermission
+//	proposal_perms   "module.Type:ProposalPermission:VotePermission" of every Content type
+//	gen_errors       call sites / methods outside the translated fragment
+//	tree_*           variation points of the tree the model follows: effective permission of layer2's
+//	                 bond waiver, whether ClaimCouncilor whitelists through AddWhitelistPermission,
+//	                 whether InitGenesis re-adds role blacklists, whether the recovery rotation
+//	                 iterates over a copy of the roles and deletes the old actor last
 package main
 
 import (
@@ -112,6 +117,99 @@ func wrapperOf(dir string) (found bool, constant string, errs []string) {
 	return
 }
 
+// permValues reads the PermValue constants of x/gov/types/permission.pb.go
+func permValues(repo string) map[string]string {
+	res := map[string]string{}
+	af, err := parser.ParseFile(fset, filepath.Join(repo, "x", "gov", "types", "permission.pb.go"), nil, 0)
+	if err != nil {
+		return res
+	}
+	for _, d := range af.Decls {
+		gd, ok := d.(*ast.GenDecl)
+		if !ok || gd.Tok != token.CONST {
+			continue
+		}
+		for _, sp := range gd.Specs {
+			vs := sp.(*ast.ValueSpec)
+			for i, n := range vs.Names {
+				if strings.HasPrefix(n.Name, "Perm") && i < len(vs.Values) {
+					if bl, ok := vs.Values[i].(*ast.BasicLit); ok {
+						res[n.Name] = bl.Value
+					}
+				}
+			}
+		}
+	}
+	return res
+}
+
+func findFunc(file, recv, name string) (*ast.FuncDecl, error) {
+	af, err := parser.ParseFile(fset, file, nil, 0)
+	if err != nil {
+		return nil, err
+	}
+	for _, d := range af.Decls {
+		if fd, ok := d.(*ast.FuncDecl); ok && fd.Name.Name == name && fd.Body != nil && (recv == "" || strings.EqualFold(recvName(fd), recv)) {
+			return fd, nil
+		}
+	}
+	return nil, fmt.Errorf("%s: function %s not found", file, name)
+}
+
+// calls returns the calls of a method / function with the given name inside n
+func calls(n ast.Node, name string) []*ast.CallExpr {
+	var res []*ast.CallExpr
+	ast.Inspect(n, func(m ast.Node) bool {
+		if c, ok := m.(*ast.CallExpr); ok {
+			switch f := c.Fun.(type) {
+			case *ast.SelectorExpr:
+				if f.Sel.Name == name {
+					res = append(res, c)
+				}
+			case *ast.Ident:
+				if f.Name == name {
+					res = append(res, c)
+				}
+			}
+		}
+		return true
+	})
+	return res
+}
+
+func mentions(c *ast.CallExpr, perm string) bool {
+	for _, a := range c.Args {
+		if permName(a) == perm {
+			return true
+		}
+	}
+	return false
+}
+
+// rotationVariant: "fixed" when the unassign loop ranges over something else than actor.Roles and
+// DeleteNetworkActor comes after it; "buggy" for the original shape; "" otherwise
+func rotationVariant(fd *ast.FuncDecl) string {
+	dels := calls(fd.Body, "DeleteNetworkActor")
+	var loop *ast.RangeStmt
+	ast.Inspect(fd.Body, func(m ast.Node) bool {
+		if r, ok := m.(*ast.RangeStmt); ok && len(calls(r.Body, "UnassignRoleFromActor")) > 0 {
+			loop = r
+		}
+		return true
+	})
+	if len(dels) != 1 || loop == nil {
+		return ""
+	}
+	overActorRoles := src(loop.X) == "actor.Roles"
+	if dels[0].Pos() < loop.Pos() && overActorRoles {
+		return "buggy"
+	}
+	if dels[0].Pos() > loop.End() && !overActorRoles {
+		return "fixed"
+	}
+	return ""
+}
+
 func main() {
 	repo := flag.String("repo", "/repo", "repository root")
 	out := flag.String("out", "Gates.v", "output file")
@@ -141,7 +239,7 @@ func main() {
 				assigned := map[string]bool{}
 				type site struct {
 					actor, perm, v string
-					viaKeeper       bool
+					viaKeeper      bool
 				}
 				var sites []site
 				ast.Inspect(fd.Body, func(n ast.Node) bool {
@@ -251,6 +349,79 @@ func main() {
 		}
 	}
 
+	// ---- variation points
+	pv := permValues(*repo)
+	dapp := ""
+	for _, g := range gates {
+		if strings.HasPrefix(g, "layer2.CreateDappProposal:") {
+			dapp = strings.Split(g, ":")[2]
+		}
+	}
+	for _, m := range mismatches {
+		if strings.HasPrefix(m, "layer2.CreateDappProposal:") {
+			dapp = strings.TrimPrefix(strings.Split(m, ":")[2], "effective=")
+		}
+	}
+	dappVal, ok := pv[dapp]
+	if !ok {
+		errs = append(errs, "layer2.CreateDappProposal: effective permission not resolved: "+dapp)
+		dappVal = "0"
+	}
+	claimIndexed := "false"
+	if fd, err := findFunc(filepath.Join(*repo, "x", "gov", "keeper", "msg_server.go"), "msgserver", "ClaimCouncilor"); err != nil {
+		errs = append(errs, err.Error())
+	} else {
+		viaKeeper, direct := false, false
+		for _, c := range calls(fd.Body, "AddWhitelistPermission") {
+			viaKeeper = viaKeeper || mentions(c, "PermCreatePollProposal")
+		}
+		for _, c := range calls(fd.Body, "AddToWhitelist") {
+			direct = direct || mentions(c, "PermCreatePollProposal")
+		}
+		switch {
+		case viaKeeper && !direct:
+			claimIndexed = "true"
+		case direct && !viaKeeper && len(calls(fd.Body, "SaveNetworkActor")) == 1:
+		default:
+			errs = append(errs, "gov.ClaimCouncilor: whitelisting of PermCreatePollProposal outside the fragment")
+		}
+	}
+	importBl := "false"
+	if fd, err := findFunc(filepath.Join(*repo, "x", "gov", "genesis.go"), "", "InitGenesis"); err != nil {
+		errs = append(errs, err.Error())
+	} else {
+		if len(calls(fd.Body, "WhitelistRolePermission")) != 1 || len(calls(fd.Body, "SetWhitelistAddressPermKey")) != 1 || len(calls(fd.Body, "AssignRoleToActor")) != 1 {
+			errs = append(errs, "gov.InitGenesis: permission import outside the fragment")
+		}
+		switch len(calls(fd.Body, "BlacklistRolePermission")) {
+		case 0:
+		case 1:
+			importBl = "true"
+		default:
+			errs = append(errs, "gov.InitGenesis: blacklist import outside the fragment")
+		}
+	}
+	rotateFixed := "false"
+	{
+		file := filepath.Join(*repo, "x", "recovery", "keeper", "msg_server.go")
+		var vs []string
+		for _, name := range []string{"RotateRecoveryAddress", "RotateValidatorByHalfRRTokenHolder"} {
+			fd, err := findFunc(file, "msgserver", name)
+			if err != nil {
+				errs = append(errs, err.Error())
+				continue
+			}
+			vs = append(vs, rotationVariant(fd))
+		}
+		if len(vs) == 2 && vs[0] == vs[1] && vs[0] != "" {
+			if vs[0] == "fixed" {
+				rotateFixed = "true"
+			}
+		} else {
+			errs = append(errs, fmt.Sprintf("recovery rotation: gov:network_actor part outside the fragment %v", vs))
+		}
+	}
+
 	var sb strings.Builder
 	sb.WriteString("(* GENERATED by /verif/harness/cmd/gen_gates from " + *repo + " -- do not edit *)\nFrom Sekai Require Import Base.Prelude.\n\n")
 	emit := func(name, marker string, rows []string) {
@@ -268,11 +439,15 @@ func main() {
 	emit("wrapper_mismatch", "WRAPPER", mismatches)
 	emit("proposal_perms", "PROPOSAL", props)
 	emit("gen_errors", "ERROR", errs)
+	sb.WriteString(fmt.Sprintf("Definition tree_dapp_perm : Z := %s. (* TREE dapp=%s *)\n", dappVal, dappVal))
+	sb.WriteString(fmt.Sprintf("Definition tree_claim_indexed : bool := %s. (* TREE claim_indexed=%s *)\n", claimIndexed, claimIndexed))
+	sb.WriteString(fmt.Sprintf("Definition tree_import_role_bl : bool := %s. (* TREE import_role_bl=%s *)\n", importBl, importBl))
+	sb.WriteString(fmt.Sprintf("Definition tree_rotate_fixed : bool := %s. (* TREE rotate_fixed=%s *)\n", rotateFixed, rotateFixed))
 	if err := os.WriteFile(*out, []byte(sb.String()), 0o644); err != nil {
 		fmt.Fprintln(os.Stderr, err)
 		os.Exit(1)
 	}
-	fmt.Fprintf(os.Stderr, "gen_gates: %d gates, %d wrapper mismatches, %d content types, %d errors\n", len(gates), len(mismatches), len(props), len(errs))
+	fmt.Fprintf(os.Stderr, "gen_gates: %d gates, %d wrapper mismatches, %d content types, %d errors; dapp=%s claim_indexed=%s import_role_bl=%s rotate_fixed=%s\n", len(gates), len(mismatches), len(props), len(errs), dappVal, claimIndexed, importBl, rotateFixed)
 	if len(errs) > 0 {
 		for _, e := range errs {
 			fmt.Fprintln(os.Stderr, "  outside fragment:", e)
